@@ -15,6 +15,7 @@ use wirm::ir::id::{FunctionID, ModuleID};
 use wirm::iterator::component_iterator::ComponentIterator;
 use wirm::iterator::iterator_trait::{IteratingInstrumenter, Iterator as WIterator};
 use wirm::iterator::module_iterator::ModuleIterator;
+use wirm::module_builder::AddLocal;
 use wirm::opcode::{Inject, InjectAt, Instrumenter};
 use wirm::{Component, Location, Module};
 
@@ -38,6 +39,10 @@ pub struct CompPlan {
     /// only, 2 once per location after all of its sites, 3 never
     #[serde(default = "one")]
     pub finish: u8,
+    /// calls made through the iterator when its cursor stands at (module in component order, function,
+    /// instruction): `add_local` of a type (true) or `add_global` of an i32 constant (false, value)
+    #[serde(default)]
+    pub extras: Vec<(u32, u32, u32, bool, crate::ins::VT, i32)>,
 }
 
 fn one() -> u8 {
@@ -186,6 +191,18 @@ pub fn gen_c26(run_seed: u64) -> Result<Scenario, String> {
         };
         let use_inject_at = rng.chance(1, 3) && !matches!(mode, Mode::FuncEntry | Mode::FuncExit);
         plan.sites.push((k as u32, func, site, use_inject_at));
+    }
+    for _ in 0..rng.below(4) {
+        let k = rng.below(order.len());
+        let m = &plan.modules[order[k] as usize];
+        let skipped: Vec<u32> = plan.skip.iter().find(|(i, _)| *i == k as u32).map(|(_, s)| s.clone()).unwrap_or_default();
+        let cands: Vec<u32> = (m.num_imp_funcs()..m.num_funcs()).filter(|f| !skipped.contains(f)).collect();
+        if let Some(func) = rng.pick_opt(&cands) {
+            let body = &m.funcs[(*func - m.num_imp_funcs()) as usize].body;
+            let at = rng.below(body.len()) as u32;
+            let ty = *rng.pick(&[crate::ins::VT::I32, crate::ins::VT::I64, crate::ins::VT::F32, crate::ins::VT::F64]);
+            plan.extras.push((k as u32, *func, at, rng.chance(2, 3), ty, rng.below(1000) as i32));
+        }
     }
     plan.finish = *rng.pick(&[0u8, 1, 1, 2, 2, 2, 3]);
     let hash_seed = rng.next();
@@ -359,7 +376,18 @@ pub fn judge_c26(sc: &Scenario) -> (Judged, RunResult) {
                         if pending_finish {
                             it.finish_instr();
                         }
-                        traj.push((k as u32, *func_idx, instr_idx as u32, is_end, op));
+                        let (fx, ix) = (*func_idx, instr_idx as u32);
+                        traj.push((k as u32, fx, ix, is_end, op));
+                        for (mk, f, at, is_local, ty, val) in &plan.extras {
+                            if *mk as usize == k && *f == fx && *at == ix {
+                                let id = if *is_local {
+                                    *it.add_local(ty.data_type())
+                                } else {
+                                    *it.add_global(crate::exec::make_global(&ConstE::I32(*val), crate::ins::VT::I32, false))
+                                };
+                                traj.push((k as u32, fx, ix, true, Ins::Unknown(format!("{} -> {id}", if *is_local { "add_local" } else { "add_global" }))));
+                            }
+                        }
                     }
                     if it.next().is_none() || traj.len() > 100_000 {
                         break;
@@ -434,7 +462,18 @@ pub fn judge_c26(sc: &Scenario) -> (Judged, RunResult) {
                 if pending_finish {
                     it.finish_instr();
                 }
-                traj.push((*mod_idx, *func_idx, instr_idx as u32, is_end, op));
+                let (mx, fx, ix) = (*mod_idx, *func_idx, instr_idx as u32);
+                traj.push((mx, fx, ix, is_end, op));
+                for (mk, f, at, is_local, ty, val) in &plan.extras {
+                    if *mk == mx && *f == fx && *at == ix {
+                        let id = if *is_local {
+                            *it.add_local(ty.data_type())
+                        } else {
+                            *it.add_global(crate::exec::make_global(&ConstE::I32(*val), crate::ins::VT::I32, false))
+                        };
+                        traj.push((mx, fx, ix, true, Ins::Unknown(format!("{} -> {id}", if *is_local { "add_local" } else { "add_global" }))));
+                    }
+                }
             }
             if it.next().is_none() || traj.len() > 100_000 {
                 break;
